@@ -18,7 +18,7 @@ ObsLookupOk(r) == /\ r.obs.lookup_ran
 
 \* property clauses (a failed one is a violation of C11)
 Clauses == {"Total", "SpansInside", "NoDuplicateCategory", "NoDuplicateName", "NamesTrimmed", "RoundTrip",
-            "Lookup", "OutcomeAsSpecified", "CatsAsSpecified", "DuplicateReported"}
+            "Lookup", "OutcomeAsSpecified", "CatsAsSpecified"}
 Holds(c, r) ==
   CASE c = "Total"               -> r.obs.st # "panic"
     [] c = "SpansInside"         -> r.obs.st = "err" => SpanInside(r.obs.first, r.len) /\ SpanInside(r.obs.second, r.len)
@@ -29,16 +29,17 @@ Holds(c, r) ==
     [] c = "Lookup"              -> r.obs.st = "ok" => ObsLookupOk(r)
     [] c = "OutcomeAsSpecified"  -> (HasPred(r) /\ r.obs.st # "panic") => r.obs.st = r.pred.st
     [] c = "CatsAsSpecified"     -> (HasPred(r) /\ r.obs.st = "ok" /\ r.pred.st = "ok") => r.obs.cats = r.pred.cats
-    [] c = "DuplicateReported"   -> (HasPred(r) /\ r.pred.st = "err" /\ r.obs.st = "err"
-                                       /\ r.pred.kind \in {"DuplicateCategory", "DuplicateIngredient"})
-                                      => r.obs.kind = r.pred.kind /\ r.obs.name = r.pred.name
 \* implementation-shaped detail no clause of C11 states: disagreement is spec drift, reported only
-Details == {"ErrorKind", "ErrorSpans", "WriterOutput"}
+\* (which error a file with several problems reports, and what it names, is not stated either: DuplicateReported)
+Details == {"ErrorKind", "ErrorSpans", "WriterOutput", "DuplicateReported"}
 Agrees(d, r) ==
   CASE d = "ErrorKind"    -> (HasPred(r) /\ r.pred.st = "err" /\ r.obs.st = "err") => r.obs.kind = r.pred.kind
     [] d = "ErrorSpans"   -> (HasPred(r) /\ r.pred.st = "err" /\ r.obs.st = "err" /\ r.obs.kind = r.pred.kind)
                                 => r.obs.first = r.pred.first /\ r.obs.second = r.pred.second
     [] d = "WriterOutput" -> r.obs.st = "ok" => r.obs.written = Write(r.obs.cats)
+    [] d = "DuplicateReported" -> (HasPred(r) /\ r.pred.st = "err" /\ r.obs.st = "err"
+                                       /\ r.pred.kind \in {"DuplicateCategory", "DuplicateIngredient"})
+                                      => r.obs.kind = r.pred.kind /\ r.obs.name = r.pred.name
 
 Failed(r) == {c \in Clauses : ~Holds(c, r)}
 Drift(r)  == {d \in Details : ~Agrees(d, r)}
